@@ -32,7 +32,7 @@ MUTANTS = MUT_C05
 QUICK_CANARIES = True
 CLAIM = {
     "text": "Thin partial: decides only that metafile entries are mapped to the right disk paths completely and in order for both content-path spellings, that readers tolerate what writers "
-            "omit, and that the iteration cannot end before the last piece. 'Exactly 100%' additionally needs the hashers and extractors to be right, which is not claimed here.",
+            "omit, and that the iteration cannot end before the last piece. 'Exactly 100%' additionally needs the hashers and extractors to be right, which is not claimed here. C05.4 = the bookkeeping shared with C04.1; C05.5: the piece length the checkers hash with is the metafile's recorded value itself.",
     "note": "Not decided: the percentage itself. Known, documented-only finding G22 is not detected by any rule.",
     "technique": "return-shape and accepting-test enumeration, must-pass-through in reader loops, control dependence, reader/writer key and predicate agreement",
     "design_ref": "DESIGN.md section 4, C05",
